@@ -1041,7 +1041,7 @@ pub fn check_event(ev: &Ev, cx: &mut Cx, sinks_on: Sinks) -> Res {
             // ---- emit (the calling thread is this one: a panic here is a panic in the caller)
             let mut file_ok = false;
             if sinks_on.file {
-                match catch_emit(|| ev.with_event(|e| pl.file.emit(e))) {
+                match catch_emit(|| ev.emit_to(&pl.file)) {
                     Ok(()) => file_ok = true,
                     Err(p) => cx.fail(emit_panic_sig("file", &shape, &p), format!("emit_file panicked on the emitting thread: {}", p.msg))?,
                 }
@@ -1054,7 +1054,7 @@ pub fn check_event(ev: &Ev, cx: &mut Cx, sinks_on: Sinks) -> Res {
                 let ems = [&pl.full_proto, &pl.full_json, &pl.logs_proto, &pl.logs_json];
                 let names = ["otlp(all signals, protobuf)", "otlp(all signals, json)", "otlp(logs, protobuf)", "otlp(logs, json)"];
                 for (i, em) in ems.iter().enumerate() {
-                    match catch_emit(|| ev.with_event(|e| em.emit(e))) {
+                    match catch_emit(|| ev.emit_to(*em)) {
                         Ok(()) => emitted[i] = true,
                         Err(p) => cx.fail(emit_panic_sig("otlp", &shape, &p), format!("{} panicked on the emitting thread: {}", names[i], p.msg))?,
                     }
